@@ -75,6 +75,34 @@ pub fn clock_now() -> Option<u128> {
     backend().and_then(|b| b.clock_now())
 }
 
+/// Mirror of `std::env`: the process environment is state shared by all threads, so reading or
+/// changing it is a scheduling point.
+pub mod env {
+    pub use std::env::*;
+    use std::ffi::{OsStr, OsString};
+
+    pub fn var<K: AsRef<OsStr>>(key: K) -> Result<String, VarError> {
+        super::yield_point("env");
+        std::env::var(key)
+    }
+    pub fn var_os<K: AsRef<OsStr>>(key: K) -> Option<OsString> {
+        super::yield_point("env");
+        std::env::var_os(key)
+    }
+    pub fn vars() -> Vars {
+        super::yield_point("env");
+        std::env::vars()
+    }
+    pub fn set_var<K: AsRef<OsStr>, V: AsRef<OsStr>>(key: K, value: V) {
+        super::yield_point("env");
+        std::env::set_var(key, value)
+    }
+    pub fn remove_var<K: AsRef<OsStr>>(key: K) {
+        super::yield_point("env");
+        std::env::remove_var(key)
+    }
+}
+
 /// per-simulated-thread storage (std's is per OS thread, which all simulated threads share)
 pub use shuttle::thread_local;
 
